@@ -4,6 +4,10 @@ package interp
 
 import (
 	"go/token"
+	"reflect"
+	"strings"
+
+	"golang.org/x/tools/go/ssa"
 )
 
 var pools map[*value][]value
@@ -23,6 +27,7 @@ func resetModels(t *Task) {
 	syncMaps = map[*value][]syncMapEntry{}
 	released = nil
 	releasedCells = nil
+	inHarnessPhase = false
 	resetRegexpModel()
 }
 
@@ -121,6 +126,102 @@ func checkReleased(fr *frame, addr *value, pos token.Pos) {
 	}
 	curPC.nAsserts++
 	curPC.assertProp(curTT.boolc(false), "C12/no-use-after-release fn="+fr.fn.String()+" at="+loc)
+}
+
+// ---- writes to library package-level state during printing calls ----
+//
+// A printing call that stores to a package-level variable of the library
+// (or updates a map held by one) races with every other concurrent call
+// unless the store is synchronised.  The engine reports such stores made
+// in the harness phase outside the documented init-time configuration
+// functions (Register*); the native witness is again the race detector's
+// report at that location, so a store under a lock is not an alarm.
+
+var inHarnessPhase bool
+
+func libGlobal(g *ssa.Global) bool {
+	if g.Pkg == nil {
+		return false
+	}
+	p := g.Pkg.Pkg.Path()
+	return strings.HasPrefix(p, "github.com/cockroachdb/redact") && !strings.HasSuffix(p, "/zzverif")
+}
+
+func configCall(fr *frame) bool {
+	for f := fr; f != nil; f = f.caller {
+		n := f.fn.Name()
+		if strings.HasPrefix(n, "Register") || strings.HasPrefix(n, "Verif") || n == "init" {
+			return true
+		}
+		if f.fn.Pkg != nil && strings.HasSuffix(f.fn.Pkg.Pkg.Path(), "/zzverif") {
+			// the harness itself (its own value tables) is not a printing call
+			return f == fr
+		}
+	}
+	return false
+}
+
+func rootGlobal(v ssa.Value) *ssa.Global {
+	for k := 0; k < 4; k++ {
+		switch x := v.(type) {
+		case *ssa.Global:
+			return x
+		case *ssa.FieldAddr:
+			v = x.X
+		case *ssa.IndexAddr:
+			v = x.X
+		default:
+			return nil
+		}
+	}
+	return nil
+}
+
+func checkGlobalStore(fr *frame, addr ssa.Value, pos token.Pos) {
+	g := rootGlobal(addr)
+	if g == nil || !libGlobal(g) || !propEnabled("C12/") || curPC == nil || configCall(fr) {
+		return
+	}
+	reportSharedWrite(fr, g.Name(), pos)
+}
+
+func checkGlobalMapUpdate(fr *frame, m value, pos token.Pos) {
+	if !propEnabled("C12/") || curPC == nil {
+		return
+	}
+	mp := reflect.ValueOf(m)
+	if mp.Kind() != reflect.Map && mp.Kind() != reflect.Ptr {
+		return
+	}
+	for g, cell := range fr.i.globals {
+		if !libGlobal(g) || *cell == nil {
+			continue
+		}
+		gv := reflect.ValueOf(*cell)
+		if gv.Kind() == mp.Kind() && gv.Pointer() == mp.Pointer() {
+			if configCall(fr) {
+				return
+			}
+			reportSharedWrite(fr, g.Name(), pos)
+		}
+	}
+}
+
+func reportSharedWrite(fr *frame, name string, pos token.Pos) {
+	loc := ""
+	if pos.IsValid() {
+		ps := fr.i.prog.Fset.Position(pos)
+		f := ps.Filename
+		for i := len(f) - 1; i >= 0; i-- {
+			if f[i] == '/' {
+				f = f[i+1:]
+				break
+			}
+		}
+		loc = f + ":" + itoa(ps.Line)
+	}
+	curPC.nAsserts++
+	curPC.assertProp(curTT.boolc(false), "C12/no-unsynchronised-shared-write var="+name+" fn="+fr.fn.String()+" at="+loc)
 }
 
 func itoa(n int) string {
